@@ -302,6 +302,13 @@ static int32 pkcs12pbe(psPool_t *pool, unsigned char *password, uint32 passLen,
         psTraceIntCrypto("PKCS#12 iteration count %d out of range\n", iter);
         return PS_LIMIT_FAIL;
     }
+    /* The salt is repeated to fill a 64-byte block below: an empty salt
+       would never fill it */
+    if (saltLen < 1)
+    {
+        psTraceCrypto("PKCS#12 salt must not be empty\n");
+        return PS_LIMIT_FAIL;
+    }
     Memset(diversifier, id, 64);
 
     for (i = 0; i < 64; )
